@@ -1,5 +1,6 @@
 import TantivyModel.Driver.Proto
 import TantivyModel.Model.Reader
+import TantivyModel.Model.Generations
 /-!
 Line protocol of the reader / GC protocol model.
 
@@ -21,9 +22,12 @@ def parseEv (s : String) : Option Ev :=
   | ["l", r, k] => do some (.loadMeta ((← r.toNat?), (← k.toNat?)))
   | ["o", r, k, p] => do some (.openFile ((← r.toNat?), (← k.toNat?)) (← p.toNat?))
   | ["r", r, k] => do some (.release ((← r.toNat?), (← k.toNat?)))
+  | ["w", r, k] => do some (.warm ((← r.toNat?), (← k.toNat?)))
   | ["p", r, k] => do some (.publish ((← r.toNat?), (← k.toNat?)))
   | ["c", p, b] => do some (.create (← p.toNat?) (← b.toNat?))
   | ["s", l] => do some (.saveMeta (← natList l))
+  | ["ml", r, k] => do some (.mLock ((← r.toNat?), (← k.toNat?)))
+  | ["mu", r, k] => do some (.mUnlock ((← r.toNat?), (← k.toNat?)))
   | ["ga"] => some .gcAcquire
   | ["gl", l] => do some (.gcList (← natList l))
   | ["gr"] => some .gcRelease
@@ -43,6 +47,46 @@ def showRid (r : Rid) : String := toString r.1 ++ "." ++ toString r.2
 
 def joinOr (l : List String) (sep : String) : String :=
   if l.isEmpty then "-" else sep.intercalate l
+
+/-! generation / inventory / warmer-GC model: `C05 gens <events>`; events `t` track, `w.G` warm,
+`s.G` store, `a.G` abandon, `k` take, `d.G` drop, `g` warmGc (model-computed list), and
+`G.l1,l2,…` = a `Warmer::garbage_collect(list)` call *observed* on the real code: the list must
+contain every generation the model knows to be live, and is applied as the GC's list.
+→ `<ok|bad:i> drawn=<n> live=<…> artifacts=<…> calls=<n>` -/
+
+inductive GIn where
+  | ev (e : Gens.GEv)
+  | obs (l : List Nat)
+
+def parseGIn (s : String) : Option GIn :=
+  match s.splitOn "." with
+  | ["t"] => some (.ev .track)
+  | ["w", g] => do some (.ev (.warm (← g.toNat?)))
+  | ["s", g] => do some (.ev (.store (← g.toNat?)))
+  | ["a", g] => do some (.ev (.abandon (← g.toNat?)))
+  | ["k"] => some (.ev .take)
+  | ["d", g] => do some (.ev (.drop (← g.toNat?)))
+  | ["g"] => some (.ev .warmGc)
+  | ["G", l] => do some (.obs (← natList l))
+  | _ => none
+
+/-- (state, first offending index) -/
+def gensFold : Gens.GSt → List GIn → Nat → Option Nat → Gens.GSt × Option Nat
+  | s, [], _, bad => (s, bad)
+  | s, .ev e :: t, i, bad =>
+    let bad' := match bad with
+      | some b => some b
+      | none => if Gens.gok s e then none else some i
+    gensFold (Gens.gstep s e) t (i + 1) bad'
+  | s, .obs l :: t, i, bad =>
+    let okHere := (Gens.liveList s).all (fun g => l.contains g)
+    let bad' := match bad with
+      | some b => some b
+      | none => if okHere then none else some i
+    let s' : Gens.GSt := { s with gcCalls := l :: s.gcCalls,
+                                  artifacts := s.artifacts.filter (fun g => l.contains g),
+                                  warmedIds := l }
+    gensFold s' t (i + 1) bad'
 
 def handle : List String → String
   | ["trace", d, evs] =>
@@ -68,6 +112,19 @@ def handle : List String → String
       let mono := (js.zip js.tail).all (fun x => x.1 ≤ x.2)
       "seq=" ++ showBool (sequential ρ t) ++ " pubs=" ++ showNatList js ++ " mono=" ++ showBool mono
     | _, _ => "bad-op"
+  | ["warm", ρ, evs] =>
+    match ρ.toNat?, parseTrace evs with
+    | some ρ, some t => "warmed=" ++ showBool (warmedBeforePublish ρ t) ++ " served=" ++
+        (match served ρ (run init t) with | some j => toString j | none => "-")
+    | _, _ => "bad-op"
+  | ["gens", evs] =>
+    match (if evs == "-" then some [] else (evs.splitOn ";").mapM parseGIn) with
+    | some t =>
+      let (s, bad) := gensFold Gens.ginit t 0 none
+      (match bad with | none => "ok" | some i => "bad:" ++ toString i) ++
+        " drawn=" ++ toString s.counter ++ " live=" ++ showNatList (Gens.liveList s) ++
+        " artifacts=" ++ showNatList s.artifacts.reverse ++ " calls=" ++ toString s.gcCalls.length
+    | none => "bad-op"
   | ["disc"] =>
     "readerLock=" ++ showBool codeDisc.readerLock ++ " gcLock=" ++ showBool codeDisc.gcLock
   | _ => "bad-op"
